@@ -346,6 +346,40 @@ def w_regroup(case, led):
                     led.check(False, "post:Mpo.__init__:total", "Mpo.__init__", f"{kind}: raised {type(e).__name__}: {e}", key, {"algo": algo}, rep)
 
 
+def w_wide_table(case, led):
+    """a term table whose row keys leave the 16-bit range: 6 spin sites, 600 distinct terms that each carry a word of 1-5 Pauli letters on EVERY site (about 1700
+    distinct one-site operators, bonds up to 600, so bond index x operator index exceeds 65535) - still a 64 x 64 operator with a dense reference"""
+    _, seed, tier = case
+    from functools import reduce
+    from renormalizer.model import Model, Op, basis as ba
+    from renormalizer.mps import Mpo
+    rng = np.random.default_rng([seed, 1719])
+    mats = {"sigma_x": np.array([[0, 1.0], [1.0, 0]]), "sigma_z": np.array([[1.0, 0], [0, -1.0]]), "sigma_+": np.array([[0, 1.0], [0, 0]]), "sigma_-": np.array([[0, 0], [1.0, 0]])}
+    letters = list(mats)
+    nsite, nterms = 6, 600
+    terms, seen, ref = [], set(), np.zeros((2 ** nsite, 2 ** nsite))
+    while len(terms) < nterms:
+        words = tuple(tuple(letters[int(i)] for i in rng.integers(len(letters), size=int(rng.integers(1, 6)))) for _ in range(nsite))
+        if words in seen:
+            continue
+        seen.add(words)
+        c = float(rng.uniform(0.5, 1.5)) * (1 if rng.random() < 0.5 else -1)
+        terms.append(Op(" ".join(x for w in words for x in w), [i for i, w in enumerate(words) for _ in w], c))
+        ref += c * reduce(np.kron, [reduce(np.matmul, [mats[x] for x in w]) for w in words])
+    model = Model([ba.BasisHalfSpin(i) for i in range(nsite)], [])
+    for algo in ("Hopcroft-Karp", "Hungarian") + (("qr",) if tier != "quick" else ()):
+        key = ("wide-table", seed, algo)
+        rep = {"nsites": nsite, "nterms": nterms, "algo": algo, "seed": seed, "how": "props.C01.w_wide_table regenerates the terms from the seed"}
+        try:
+            mpo = Mpo(model, terms, algo=algo)
+            err = float(np.abs(S.dense(mpo) - ref).max())
+            led.check(err <= 1e-10 * float(np.abs(ref).max()), "post:Mpo.__init__:dense_equals_sum_of_products_wide_table", "Mpo.__init__",
+                      f"{nterms} terms, {len(mpo.primary_ops) if hasattr(mpo, 'primary_ops') else '?'} one-site operators, bonds {max(mpo.bond_dims)}: dense(MPO) differs from the dense sum by {err:.2e}",
+                      key, {"algo": algo}, rep)
+        except Exception as e:
+            led.check(False, "post:Mpo.__init__:total", "Mpo.__init__", f"wide table: raised {type(e).__name__}: {e}", key, {"algo": algo}, rep)
+
+
 def w_wrappers(case, led):
     """the convenience constructors Mpo.onsite / Mpo.ph_onsite / Mpo.intersite build the term list they document and hand it to the same construction"""
     _, seed, tier = case
@@ -377,6 +411,7 @@ def check(run):
     run_cases(run, worker, cases)
     run_cases(run, w_regroup, [("regroup", s, run.tier) for s in seeds])
     run_cases(run, w_wrappers, [("wrappers", s, run.tier) for s in seeds])
+    run_cases(run, w_wide_table, [("wide", run.seed, run.tier)])
     from props import C01_sym
     guarded(run, C01_sym.prove_chain)
     run.rule = ("models {spin chains, spin with 1 and 2 quantum numbers, spin+shifted oscillator+electron, Holstein-like, multi-DoF electron sites, single site, "
